@@ -155,6 +155,13 @@ def _w_reuse(res, p):
     res.nontrivial()
     for i, (ops, n) in enumerate(p["circuits"]):
         c = Circuit([make_gate(g, e)(*tuple(q)) for g, e, q in ops], n_qubits=n)
+        if p.get("maps"):
+            # the CALLER updates its own map object in place between two bindings (new values, new keys, keys removed): the
+            # binding must follow the map's content at the time of the call, not what the object held at an earlier call
+            m = MAPS[p["maps"][i]]
+            probe.given.clear()
+            probe.given.update(m)
+            probe.snap = list(probe.given.items())
         bound = c.bind(probe.given)
         want_params = [tuple(subs_param(q, m) for q in op.params) for op in c.operations]
         got_params = [tuple(op.params) for op in bound.operations]
@@ -434,6 +441,15 @@ def instances(tier, seed):
     for si, seq in enumerate(seqs):
         for mname in ("total", "superfluous", "x,y->num", "x,y->v"):
             items.append(("reuse", {"circuits": [[[list(o) for o in ops], n] for ops, n in seq], "map": mname, "label": f"shared map {mname} over circuit sequence #{si}"}))
+    # ... and updated in place by the caller between the bindings (the same expressions are substituted again with new content)
+    evolving = [
+        ([([("RX", ["2x"], (0,)), ("RY", ["x+y"], (1,))], None)] * 3, ["x->v0", "x,y->v", "x,y->num"]),
+        ([([("RZ", ["x*y"], (0,)), ("XX", ["x/2"], (0, 1))], None), ([("RZ", ["x*y"], (0,)), ("RX", ["x"], (1,))], None)], ["x,y->num", "x->2v0"]),
+        ([([("U3", ["x", "y-x", "2x"], (0,))], 2)] * 2, ["x->y", "total"]),
+        ([([("PHASE|dagger", ["y-x"], (0,)), ("RX|c1", ["2x"], (1, 0))], None)] * 2, ["x->0", "x,y->v"]),
+    ]
+    for si, (seq, mnames) in enumerate(evolving):
+        items.append(("reuse", {"circuits": [[[list(o) for o in ops], n] for ops, n in seq], "map": mnames[0], "maps": mnames, "label": f"one map object updated in place {mnames} over circuit sequence #{si}"}))
     for gid in ["X|pow(2)", "RX(0.3)|pow(0.5)", "H|exp", "T|dagger|pow(3)", "RZ(0.2)|exp", "X|pow(2)|c1"]:
         items.append(("refuse", {"gid": gid, "label": gid}))
     for es in (["x", "y", "num", "x+y"], ["2x", "-x"], ["x*y", "z", "y", "x", "num", "x/2", "y-x", "x"]):
